@@ -15,7 +15,7 @@ def ownText (cfg : PartCfg) (x : Xml) : M (Str × Bool) :=
   match tagMember x.ptag with
   | some "TEXT" => pure (if cfg.html then escapeHtml (x.text?.getD []) else x.text?.getD [], true)
   | some "TEXT_MATH" => pure (if cfg.html then escapeHtml (x.text?.getD []) else x.text?.getD [], true)
-  | some "MATH" => pure (lit "<latex>" ++ x.itertext ++ lit "</latex>", false)
+  | some "MATH" => pure (lit "<latex>" ++ (if cfg.html then escapeHtml x.itertext else x.itertext) ++ lit "</latex>", false)
   | some "BR" => pure (['\n'], true)
   | some "TAB" => pure (['\t'], true)
   | some "SYM" => (symCode x) >>= fun c => pure (c.getD [], true)
